@@ -231,6 +231,14 @@ def oracle_c14(scn, run):
         if match_event(e, run["durable"][:e["durable"]]) is None and any(q.get("dry") for q in reqs):
             v.append(({"class": "preview-published", "type": e["type"]}, "a %s event was published for a write that persisted nothing" % e["type"]))
             break
+    # a preview answers what the real write would answer: with a recorded idempotency key, that entry
+    for r in run["responses"]:
+        q = reqs[r["req"]]
+        if q.get("dry") and q.get("ik") and r["ok"] and q["kind"] in ("create", "revert") and r["tx"]:
+            rec = [l for l in run["durable"][:r["durable"]] if l["ik"] == q["ik"] and l.get("tx")]
+            if rec and rec[0]["tx"]["id"] != r["tx"]["id"]:
+                v.append(({"class": "preview-answer-differs", "what": "recorded-key"},
+                          "a preview with the recorded key %r was answered transaction %s, the real write would answer %s" % (q["ik"], r["tx"]["id"], rec[0]["tx"]["id"])))
     tw = run.get("twin")
     if tw is not None:
         a = [(l["type"], l["id"], (l.get("tx") or {}).get("id"), ptuple((l.get("tx") or {}).get("postings", []))) for l in run["durable"]]
